@@ -184,6 +184,7 @@ class Interp:
         self.loop_handler = loops.loop_handler
         self.max_unroll = 64
         self.hints = None
+        self.attr_log = None      # optional {id(obj): {"obj": obj, "read": [names], "write": [names]}} (ghost: frames)
         self.call_depth = 0
 
     # -- module loading ---------------------------------------------------------------
@@ -220,9 +221,24 @@ class Interp:
             return self.np
         if dotted == "math":
             return self.mathmod
+        if dotted == "time":
+            # wall-clock bookkeeping: havocked reals (outside every contract, DESIGN §2.2)
+            return NativeNS("time", {"process_time": Builtin("time.process_time", lambda: cur().fresh("clock")),
+                                     "time": Builtin("time.time", lambda: cur().fresh("clock"))})
+        if dotted == "copy":
+            return NativeNS("copy", {"copy": Builtin("copy.copy", lambda o: self.shallow_copy(o))})
         if dotted.split(".")[0] == self.package:
             return self.load(dotted)
         return Opaque(dotted)
+
+    def shallow_copy(self, o):
+        if isinstance(o, PyObj):
+            c = PyObj(o.cls)
+            c.attrs = dict(o.attrs)
+            return c
+        if isinstance(o, (list, dict)):
+            return o.copy()
+        raise EngineError("copy.copy of %r" % (o,))
 
     def make_exc(self, name, *args):
         o = PyObj(EXC[name])
@@ -831,8 +847,18 @@ class Interp:
         raise EngineError("cannot iterate over %r" % (it,))
 
     # -- attribute access -------------------------------------------------------------
+    def _log_attr(self, obj, name, kind):
+        ent = self.attr_log.get(id(obj))
+        if ent is not None:
+            if kind == "read" and name in ent["write"]:
+                return
+            if name not in ent[kind]:
+                ent[kind].append(name)
+
     def getattr(self, obj, name):
         if isinstance(obj, PyObj):
+            if self.attr_log is not None:
+                self._log_attr(obj, name, "read")
             if name in obj.attrs:
                 return obj.attrs[name]
             if name == "__class__":
@@ -884,6 +910,8 @@ class Interp:
 
     def hasattr(self, obj, name):
         if isinstance(obj, PyObj):
+            if self.attr_log is not None:
+                self._log_attr(obj, name, "read")
             if name in obj.attrs:
                 return True
             try:
@@ -897,6 +925,8 @@ class Interp:
         if isinstance(obj, PyObj):
             if A._rec[0] is not None:
                 A._rec[0].on_setattr(obj, name)
+            if self.attr_log is not None:
+                self._log_attr(obj, name, "write")
             obj.attrs[name] = v
             return
         raise EngineError("setattr on %r" % (obj,))
